@@ -592,6 +592,33 @@ REF_FIELDS = {
 }
 
 
+def penc_flag_ok(sp, tr, pe, wants, area_kw=None):
+    """is the encryption flag `pe` handed to a decode `E or None` for one of the accepted predicate calls E (wants:
+    [("ornone", ("penc", kwargs, args))]) - spelled as that value, or as a branch on E that sets the flag to True
+    (`flag = None ... if E: flag = True`), in which case the trace's decision on E and the flag must agree"""
+    def same_call(v, w):
+        if v == w[1]:
+            return True
+        # the area may be passed by keyword under any name
+        if v[0] == "penc" and w[1][0] == "penc" and area_kw is not None:
+            kv = dict(v[1])
+            kw_ = dict(w[1][1])
+            extra = [x for k_, x in kv.items() if k_ not in kw_]
+            return {k_: x for k_, x in kv.items() if k_ in kw_} == kw_ and tuple(extra) + tuple(v[2]) == tuple(w[1][2])
+        return False
+    if pe in wants:
+        return True
+    if isinstance(pe, tuple) and pe[:1] == ("ornone",) and any(same_call(pe[1], w) for w in wants):
+        return True
+    for key, val in tr.decisions.items():
+        v = getattr(tr, "decision_values", {}).get(key)
+        if v is None:
+            continue
+        if isinstance(v, tuple) and v[:1] == ("penc",) and any(same_call(v, w) for w in wants):
+            return (pe == ("const", True)) if val else (pe in (("const", None), None))
+    return False
+
+
 def atom_semantics(text):
     """map a dynamic condition text to (what, polarity-when-True)"""
     t = text.replace('"', "'")
@@ -603,6 +630,8 @@ def atom_semantics(text):
         return ("failed", True)
     if t in ("values['responseCode'] == TPM_RC.SUCCESS", "TPM_RC.SUCCESS == values['responseCode']"):
         return ("failed", False)
+    if t.startswith("is_parameter_encryption(") and t.endswith(")"):
+        return ("encryption requested", True)   # decides the flag handed to the parameter decode, not which fields exist
     return None
 
 
@@ -682,8 +711,10 @@ def framing(run, roles, L):
                 if w == "process_command":
                     if f == "parameters" and sessions:
                         auth = next((q for q in procs if q.data["field"] == "authorizationArea"), None)
-                        want = ("ornone", ("penc", (("authorizationArea", ("result", ("authorizationArea", auth.data["index"]), 1)),), ())) if auth else None
-                        run.ob("F", pe == want, f"{w} {vid}: first parameter opaque iff a session requests decryption",
+                        area_v = ("result", ("authorizationArea", auth.data["index"]), 1) if auth else None
+                        wants = [("ornone", ("penc", (("authorizationArea", area_v),), ())), ("ornone", ("penc", (), (area_v,)))] if auth else []
+                        run.ob("F", bool(auth) and penc_flag_ok(sp, tr, pe, wants, area_kw=area_v),
+                               f"{w} {vid}: first parameter opaque iff a session requests decryption",
                                f"parameter_encryption for parameters is `{render(pe)}`", module=mod, node=p.node, func=w,
                                construct=f"{w} parameter_encryption provenance")
                     else:
